@@ -8,6 +8,11 @@ CLAIMS = {
         "note": "A-real; picosvg SVG parsing/normal form, SVGLinearGradient/SVGRadialGradient.from_element, Affine2D.fromstring, ufo2ft COLR builder, fontTools compile and COLRv1 rendering semantics are assumed; tree traversal and lxml-facing functions are covered by the bounded tier only.",
         "design_ref": "DESIGN.md section 4 C01",
     },
+    "C05": {
+        "text": "Quantisation (edges are multiples of the step, containment within one step), the rounding/protrusion lemmas (compiled outline points protrude by at most half the transform's row sums plus 1/2) are discharged for all inputs; _bounds (None iff nothing painted, contains every placed shape after otRound, measured under the COLR-semantics accumulated transform, every leaf measured) by exhaustive symbolic execution over 6 paint-tree shapes x up to 2 roots (finite scope, labelled bounded).",
+        "note": "A-real; _transformed_glyph_bounds (fontTools ControlBoundsPen/TransformPen) is an assumed contract, conformance-checked natively; A-fdiv: math.floor(v / q) on floats equals the real floor for |v| < 2^31; ufo2ft ClipList writer assumed.",
+        "design_ref": "DESIGN.md section 4 C05",
+    },
     "C14": {
         "text": "ppem, pixel advance, horizontal centring, vertical placement within one pixel (two when nudged; for em <= 2*upem), the int8 nudge, format-17 record size and the contiguous offset table (loop invariant) are discharged for all inputs from the current source.",
         "note": "A-real; precondition bitmap height == bitmap_resolution (what the driver's resvg step produces); em > 2*upem is only covered by the general clause; fontTools CBDT/sbix writers and PIL's PNG size are assumed.",
